@@ -7,7 +7,7 @@ use bemodel::*;
 use serde_json::{json, Value};
 use std::collections::HashSet;
 
-const TILTS: [f32; 11] = [0.0, 45.0, 60.0, 60.01, 90.0, 119.99, 120.0, 180.0, 270.0, 200.0, 330.0];
+const TILTS: [f32; 13] = [0.0, 45.0, 60.0, 60.01, 90.0, 119.99, 120.0, 180.0, 270.0, 200.0, 330.0, -30.0, 540.0];
 const KINDS: [SpaceType; 3] = [SpaceType::CONDITIONED, SpaceType::UNCONDITIONED, SpaceType::UNINHABITED];
 
 /// stacks: returns the construction id to use for the subject; pushes what is needed
